@@ -253,7 +253,7 @@ class ExcelCompiler:
                 existing_hash != self._compute_file_md5_digest(filename))
 
     @classmethod
-    def _from_text(cls, filename, is_json=False):
+    def _from_text(cls, filename, is_json=False, plugins=None):
         """deserialize from a json/yaml file"""
 
         if not is_json:
@@ -267,7 +267,10 @@ class ExcelCompiler:
             data = YAML().load(f)
 
         excel = _CompiledImporter(filename, data)
-        excel_compiler = cls(excel=excel, cycles=data.pop('cycles', False))
+        # the ranges are evaluated while the graph is built: the plugin
+        # functions have to be known by then
+        excel_compiler = cls(excel=excel, cycles=data.pop('cycles', False),
+                             plugins=plugins)
         excel.compiler = excel_compiler
 
         def add_line_numbers(cell_addr, line_number):
@@ -387,7 +390,8 @@ class ExcelCompiler:
             if (text_changed or not pickle_is_current or
                     non_pickle_extension not in file_types or
                     os.path.getmtime(filename) < text_saved_at):
-                excel_compiler = self._from_text(text_name, is_json=is_json)
+                excel_compiler = self._from_text(
+                    text_name, is_json=is_json, plugins=self._plugin_modules)
                 if non_pickle_extension not in file_types:
                     os.unlink(text_name)
 
@@ -421,7 +425,7 @@ class ExcelCompiler:
                 excel_compiler = pickle.load(f)
         else:
             excel_compiler = cls._from_text(
-                filename, is_json=extension == 'json')
+                filename, is_json=extension == 'json', plugins=plugins)
 
         excel_compiler.excel = _CompiledImporter('', {
             'filename': excel_compiler.filename,
